@@ -80,12 +80,26 @@ class Ctx:
                                     'extra': extra})
 
     def unexpected(self, api, exc, replay):
+        """An exception escaped a driven call.  Attributed to cirbo (violation) only when the
+        innermost relevant frame is cirbo code; an exception raised by harness / oracle /
+        shim code is harness trouble: inconclusive, never a verdict."""
         tb = traceback.extract_tb(exc.__traceback__)
         where = ''
+        origin = None
         for fr in reversed(tb):
-            if '/cirbo/' in fr.filename:
-                where = '%s:%s' % (fr.filename.split('/cirbo/', 1)[1], fr.name)
+            fn = fr.filename.replace('\\', '/')
+            if '/cirbo/' in fn and '/vt/' not in fn:
+                origin = 'cirbo'
+                where = '%s:%s' % (fn.split('/cirbo/', 1)[1], fr.name)
                 break
+            if '/vt/' in fn:
+                origin = 'harness'
+                where = '%s:%s:%d' % (fn.split('/vt/', 1)[1], fr.name, fr.lineno)
+                break
+        if origin != 'cirbo':
+            self.count('harness_exception:%s@%s' % (type(exc).__name__, where))
+            self.note_inconclusive('harness exception %s: %s at %s' % (type(exc).__name__, str(exc)[:200], where))
+            return
         self.violation(api, 'exception', '%s@%s' % (type(exc).__name__, where),
                        '%s: %s' % (type(exc).__name__, exc), replay,
                        extra={'traceback': ''.join(traceback.format_exception(exc))[-3000:]})
